@@ -648,6 +648,104 @@ func stringSwitches(pkgs []*packages.Package) []string {
 	return out
 }
 
+// charSetCalls: per function, the string literals handed as character sets to strings.ContainsAny, strings.IndexAny and
+// strings.Trim, in source order (the characters a value is checked against before it is written into markup).
+func charSetCalls(pkgs []*packages.Package) []string {
+	var out []string
+	for _, p := range pkgs {
+		if !strings.Contains(p.PkgPath, "gofrundis") {
+			continue
+		}
+		for _, f := range p.Syntax {
+			if isHookFile(p.Fset.Position(f.Pos()).Filename) {
+				continue
+			}
+			for _, d := range f.Decls {
+				fd, ok := d.(*ast.FuncDecl)
+				if !ok || fd.Body == nil {
+					continue
+				}
+				var lits []string
+				ast.Inspect(fd.Body, func(n ast.Node) bool {
+					c, ok := n.(*ast.CallExpr)
+					if !ok || len(c.Args) != 2 {
+						return true
+					}
+					se, ok := c.Fun.(*ast.SelectorExpr)
+					if !ok {
+						return true
+					}
+					x, ok := se.X.(*ast.Ident)
+					if !ok || x.Name != "strings" || (se.Sel.Name != "ContainsAny" && se.Sel.Name != "IndexAny" && se.Sel.Name != "Trim") {
+						return true
+					}
+					if bl, ok := c.Args[1].(*ast.BasicLit); ok && bl.Kind == token.STRING {
+						v, _ := strconv.Unquote(bl.Value)
+						lits = append(lits, coqStr(v))
+					}
+					return true
+				})
+				if len(lits) > 0 {
+					out = append(out, fmt.Sprintf("(%s, [%s])", coqStr(p.Name+"."+fd.Name.Name), strings.Join(lits, "; ")))
+				}
+			}
+		}
+	}
+	sort.Strings(out)
+	return out
+}
+
+// replacerVars: package-level variables initialised with strings.NewReplacer over string literals.
+func replacerVars(pkgs []*packages.Package) []string {
+	var out []string
+	for _, p := range pkgs {
+		if !strings.Contains(p.PkgPath, "gofrundis") {
+			continue
+		}
+		for _, f := range p.Syntax {
+			if isHookFile(p.Fset.Position(f.Pos()).Filename) {
+				continue
+			}
+			for _, d := range f.Decls {
+				gd, ok := d.(*ast.GenDecl)
+				if !ok || gd.Tok != token.VAR {
+					continue
+				}
+				for _, s := range gd.Specs {
+					vs := s.(*ast.ValueSpec)
+					if len(vs.Names) != 1 || len(vs.Values) != 1 {
+						continue
+					}
+					c, ok := vs.Values[0].(*ast.CallExpr)
+					if !ok {
+						continue
+					}
+					se, ok := c.Fun.(*ast.SelectorExpr)
+					if !ok || se.Sel.Name != "NewReplacer" {
+						continue
+					}
+					var lits []string
+					all := true
+					for _, a := range c.Args {
+						bl, ok := a.(*ast.BasicLit)
+						if !ok || bl.Kind != token.STRING {
+							all = false
+							break
+						}
+						v, _ := strconv.Unquote(bl.Value)
+						lits = append(lits, coqStr(v))
+					}
+					if all && len(lits) > 0 {
+						out = append(out, fmt.Sprintf("(%s, [%s])", coqStr(p.Name+"."+vs.Names[0].Name), strings.Join(lits, "; ")))
+					}
+				}
+			}
+		}
+	}
+	sort.Strings(out)
+	return out
+}
+
 // stringSliceAssign: the []string literal assigned to a field or variable called name, anywhere in package p.
 func stringSliceAssign(p *packages.Package, name string) []string {
 	var out []string
@@ -1022,6 +1120,8 @@ func genFacts(pkgs []*packages.Package, out string) {
 	fmt.Fprintf(&b, "(* which table each function hands to ParseOptions *)\nDefinition parse_options_uses : list (string * string) :=\n  [%s].\n\n", strings.Join(parseOptionsUses(fr), ";\n   "))
 	fmt.Fprintf(&b, "(* string-literal case lists of every switch, per function *)\nDefinition string_switches : list (string * list (list string)) :=\n  [%s].\n\n", strings.Join(stringSwitches(pkgs), ";\n   "))
 	fmt.Fprintf(&b, "Definition valid_formats : list string :=\n  [%s].\n\n", strings.Join(stringSliceAssign(fr, "validFormats"), "; "))
+	fmt.Fprintf(&b, "(* character sets given to strings.ContainsAny / IndexAny / Trim, per function, in source order *)\nDefinition char_set_calls : list (string * list string) :=\n  [%s].\n\n", strings.Join(charSetCalls(pkgs), ";\n   "))
+	fmt.Fprintf(&b, "(* package-level strings.NewReplacer tables *)\nDefinition replacer_vars : list (string * list string) :=\n  [%s].\n\n", strings.Join(replacerVars(pkgs), ";\n   "))
 	fmt.Fprintf(&b, "Definition max_macro_expansions : N := %s.\nDefinition max_macro_args_size : N := %s.\n\n", intConst(fr, "maxMacroExpansions"), intConst(fr, "maxMacroArgsSize"))
 	fmt.Fprintf(&b, "(* processBlock: macro names that do not become PrevMacro *)\nDefinition invisible_names : list string :=\n  [%s].\n\n", strings.Join(nameEqLits(fr, "processBlock"), "; "))
 	var files []string
